@@ -35,7 +35,7 @@ variable [Add α] [Mul α] [Div α] [Fn α]
 @[inline] def zero : α := Fn.ofNat 0
 
 /-- element `i`; indices outside the array read 0 (the theorems of C08 show that `process` never does: `*_in_bounds`) -/
-@[inline] def get (a : Array α) (i : Nat) : α := a.getD i zero
+@[inline] def elem (a : Array α) (i : Nat) : α := a.getD i zero
 
 /-- row `k` of a coefficient table -/
 @[inline] def row (a : Array (Array α)) (k : Nat) : Array α := a.getD k #[]
@@ -58,9 +58,9 @@ variable [Add α] [Mul α] [Div α] [Fn α]
 branch `i` tap `k` = `h[i + k m] * gain`; `flip` reverses every branch. -/
 def polyphase (h : Array α) (m : Nat) (gain : α) (flip : Bool) : Array (Array α) :=
   let nh := paddedLen h.size m
-  let s : α := accN (fun i => get h i) nh zero
+  let s : α := accN (fun i => elem h i) nh zero
   let n := nh / m
-  tab m fun i => tab n fun k => get h (i + (if flip then n - 1 - k else k) * m) / s * gain
+  tab m fun i => tab n fun k => elem h (i + (if flip then n - 1 - k else k) * m) / s * gain
 
 /-! ## FIRInterpolator -/
 
@@ -79,7 +79,7 @@ def Interp.init (L : Nat) (h : Array α) : Interp α :=
 def Interp.process (s : Interp α) (x : Array α) : Interp α × Array α :=
   let buf := s.d ++ x
   let y := tab (x.size * s.L) fun o =>
-    accN (fun j => get buf (o / s.L + j) * get (row s.h (o % s.L)) j) s.sub zero
+    accN (fun j => elem buf (o / s.L + j) * elem (row s.h (o % s.L)) j) s.sub zero
   ({ s with d := buf.extract x.size (x.size + s.d.size) }, y)
 
 def Interp.delay (s : Interp α) : Nat := s.sub * s.L / 2
@@ -102,7 +102,7 @@ def Decim.process (s : Decim α) (x : Array α) : Except String (Decim α × Arr
   if x.size % s.M ≠ 0 then .error "Input frame length must be a multiple of the 'decim'" else
   let buf := s.d ++ x
   let y := tab (x.size / s.M) fun i =>
-    loopN (fun k a => accN (fun j => get buf (i * s.M + k + j * s.M) * get (row s.h k) j) s.sub a) s.M zero
+    loopN (fun k a => accN (fun j => elem buf (i * s.M + k + j * s.M) * elem (row s.h k) j) s.sub a) s.M zero
   .ok ({ s with d := buf.extract x.size (x.size + s.d.size) }, y)
 
 def Decim.delay (s : Decim α) : Nat := s.sub / 2
@@ -145,7 +145,7 @@ def RateConv.process (s : RateConv α) (x : Array α) : Except String (RateConv 
   if x.size % s.M ≠ 0 then .error "Input frame length must be a multiple of the 'decim'" else
   let buf := s.d ++ x
   let y := tab (x.size / s.M * s.L) fun o =>
-    accN (fun j => get buf (o / s.L * s.M + s.xi.getD (o % s.L) 0 + j) * get (row s.h (o % s.L)) j) s.sub zero
+    accN (fun j => elem buf (o / s.L * s.M + s.xi.getD (o % s.L) 0 + j) * elem (row s.h (o % s.L)) j) s.sub zero
   .ok ({ s with d := buf.extract x.size (x.size + s.d.size) }, y)
 
 /-- `c = sublen*interp/2 + 1 - decim; (c <= 0) ? 0 : (2c + decim) / (2 decim)` -/
